@@ -24,10 +24,12 @@ var vfG struct {
 	writes     int
 	pointer    int64
 	pointerSet bool
+	askedIdx   int64
 }
 
 //verif:stub (*github.com/shutter-network/rolling-shutter/rolling-shutter/chainobserver/db/keyper.Queries).GetKeyperSetByKeyperConfigIndex sql=getKeyperSetByKeyperConfigIndex
 func vfStubGetKeyperSet(q *obskeyperdatabase.Queries, ctx context.Context, idx int64) (obskeyperdatabase.KeyperSet, error) {
+	vfG.askedIdx = idx
 	if vfG.setMissing {
 		return obskeyperdatabase.KeyperSet{}, pgx.ErrNoRows
 	}
@@ -170,6 +172,12 @@ func H_C05_gnosis_keys() {
 	}
 	vfReach("accepted")
 	ex := msg.Extra.(*p2pmsg.DecryptionKeys_Gnosis).Gnosis
+	// C06 at the level of the handler: an accepted message passes the (separately checked)
+	// signature kernel against the keyper set stored for the message's own eon
+	vfAssert(!vfG.setMissing && vfG.askedIdx == int64(msg.Eon), "keyper-set-of-the-message-eon-is-consulted")
+	basic, _ := ValidateDecryptionKeysBasic(msg)
+	ref, _ := ValidateDecryptionKeysSignatures(msg, ex, &vfG.set)
+	vfAssert(basic == pubsub.ValidationAccept && ref == pubsub.ValidationAccept, "accepted-keys-message-carries-a-threshold-of-genuine-signatures")
 	_, err := h.HandleMessage(context.Background(), msg)
 	if err == nil {
 		vfReach("handled")
